@@ -657,6 +657,10 @@ def r07_13(ctx: Ctx, rule: str = "R07.13") -> None:
         ctx.need(fl is not None, f"{cname}.flush vanished")
         n += 1
         names = {attr_tail(c) for c in q.calls(fl)}
+        weak = [c for c in q.calls(fl) if attr_tail(c) in enders and any("FLUSH_BLOCK" in norm(a) or "CONTINUE" in norm(a) for a in list(c.args) + [k.value for k in c.keywords])]
+        ctx.check(not weak, rule, fl, weak[0] if weak else fl.node, f"{cname}.flush ends the stream with the mode that closes it",
+                  (f"`{norm(weak[0])}`: " if weak else "") + f"{cname}.flush asks the library for a block flush: the data so far is handed out but the frame is never closed - py7zr's own "
+                  "tolerant decoder reads it back, a strict decoder reports truncated data", construct=f"{cname}.flush mode")
         ctx.check(bool(names & set(enders)), rule, fl, fl.node, f"{cname}.flush ends the stream ({'/'.join(enders)})",
                   f"{cname}.flush calls {sorted(names)} but not {list(enders)}: the compressed stream is written without its final block; py7zr's own reader does not check for the "
                   "end of the stream, every independent decoder reports the data as truncated", construct=f"{cname}.flush ender")
@@ -781,6 +785,10 @@ def r07_21(ctx: Ctx, rule: str = "R07.21") -> None:
 
 
 def run(ctx: Ctx) -> None:
+    from . import c15 as _c15i
+    _c15i.r15_10(ctx, rule="R07.22")  # no folder is registered before its coder chain exists
+    from . import c06 as _c06s
+    _c06s.r06_12(ctx, rule="R07.23")  # no implied size for a folder without substreams (an append would write every later size shifted)
     r07_21(ctx)
     from . import c15 as _c15r
     _c15r.r15_16(ctx, rule="R07.20")  # a failed append puts the header back as it was found (encrypted iff it was)
